@@ -10,32 +10,41 @@ REQUIRED = ["equatorial2ecliptical", "ecliptical2equatorial", "equatorial2horizo
             "circle_diameter", "straight_line", "Angle.__init__", "Angle.set", "Angle.reduce_deg", "Angle.rad",
             "Angle.to_positive", "Angle.__add__", "Angle.__radd__", "Angle.__sub__", "Angle.__neg__", "Angle.__call__"]
 THEOREMS = ["C05_closed_forms", "C05_ecl_rotation", "C05_ecl_inverse", "C05_hor_rotation", "C05_hor_inverse",
-            "C05_gal_rotation", "C05_gal_inverse", "C05_dot_preserved", "C05_separation", "C05_position_angle",
+            "C05_gal_rotation", "C05_gal_inverse", "C05_inverse_directions", "C05_dot_preserved", "C05_separation",
+            "C05_position_angle",
             "C05_circle_closed_form", "C05_circle_bounds", "C05_circle_geometry"]
 PROOF_TIMEOUT = {"quick": 1500, "thorough": 3000}
 EXHAUSTIVE = False
 MANIFEST = {
     "category": "proof",
-    "text": "T4 (ideal real arithmetic): the regenerated bodies of the six coordinate conversions, angular_separation and relative_position_angle are evaluated symbolically for ALL real angles to exact closed forms, and the closed forms are proved to be rotations of the unit vector (Rx(-/+eps); Ry by the colatitude with Meeus' azimuth convention; the fixed galactic rotation Rz(303)Ry(27.4-90)Rz(-192.25) and its inverse Rz(12.25)Ry(27.4-90)Rz(-123)) for every latitude except the exact poles: each pair mutually inverse as angles, dot products preserved, longitudes in [0,360) / azimuths in (-180,180], latitudes in [-90,90]; separation: cos(theta) = dot product, 0..180, symmetric; position angle negates with the sign of delta-alpha. Binary64 accuracy (1e-9 degree on the sphere, poles, seam, tiny and near-antipodal separations), circle_diameter: branch selection, closed form and the bounds a <= d <= 2a/sqrt(3) proved for any three separations in 0..180 (planar geometry); straight_line is searched on the implementation against unit-vector references; bit-exact correspondence model vs implementation every run.",
+    "text": "T4 (ideal real arithmetic only; no binary64 theorem): the regenerated bodies of the six coordinate conversions, angular_separation and relative_position_angle are evaluated symbolically to exact closed forms (longitude atan2(y,x), latitude atan2(z, |cos lat_in| sqrt(x^2+y^2))), and for every INPUT latitude strictly between the poles (-90 < lat < 90; an input exactly at a pole is excluded because the code takes tan of it and the real-number tan has no domain check) the closed forms are proved to be rotations of the unit vector (Rx(-/+eps); Ry by the colatitude with Meeus' azimuth convention; the fixed galactic rotation Rz(303)Ry(27.4-90)Rz(-192.25) and its inverse Rz(12.25)Ry(27.4-90)Rz(-123)); an OUTPUT exactly at a pole is covered. Each pair is mutually inverse as directions for every input longitude and as angles for canonical longitudes, provided the intermediate latitude is not a pole (it is the input of the second call); dot products preserved (inputs off the poles); longitudes in [0,360) / azimuths in (-180,180], latitudes in [-90,90]. Separation: exact expression 2 atan2(sqrt h, sqrt hc), hc = 1 - h, cos(theta) = dot product, 0..180, symmetric. Position angle: exact expression (shifted/rounded delta-alpha in [-180,180] for canonical right ascensions, two cancellation-free x forms, both = u1.north2), equals Meeus' quotient form for cos d1 > 0, negates when the two right ascensions are exchanged (not the bodies). circle_diameter: branch selection, closed form and a <= d <= 2a/sqrt(3) for any three separations in 0..180 (planar geometry). Binary64 behaviour of all clauses (1e-9 degree on the sphere, exact poles +-90 and +-(90-1e-9) as inputs and outputs, 0/360 seam, 1e-7..179.999 degree separations) and straight_line are searched on the implementation against unit-vector / 60-digit references; bit-exact correspondence model vs implementation every run.",
     "technique": "symbolic evaluation of the generated model in the real-number instance (pyrun with characterisation lemmas for the Angle constructor / reduce_deg / to_positive / Angle subtraction / x**2, call-by-value variant for nested arithmetic) + atan2 and rotation algebra on unit vectors (lib/Sphere.v) + bit-exact differential correspondence + property oracle on the sphere",
     "design_ref": "8/C05",
 }
 EXPLANATION = ("The model of the conversion routines regenerated from /repo is evaluated symbolically over the reals; the "
-               "results are proved to be the atan2/asin coordinates of a rotation of the input direction (uvec (atan2 y x) "
-               "(asin z) = (x,y,z) for unit vectors, atan2 scale invariance for the division by cos(delta) hidden in tan), "
-               "hence inverse pairs, isometries, canonical ranges. The separation formula is proved equal to the cosine rule.")
+               "results are proved to be the coordinates (atan2 y x, atan2 z (cos-lat)) of a rotation of the input direction "
+               "(uvec (atan2 y x) (asin z) = (x,y,z) and atan2 z (sqrt(x^2+y^2)) = asin z for unit vectors, atan2 scale invariance "
+               "for the division by cos(delta) hidden in tan: needs -90 < input latitude < 90), hence inverse pairs, isometries, "
+               "canonical ranges. The separation (2 atan2(sqrt h, sqrt(1-h))) is proved equal to the cosine rule, the position "
+               "angle to atan2(u1.east2, u1.north2). Exact input poles and all rounding questions are left to the search.")
 CLAUSES = {
-    "equatorial<->ecliptical mutually inverse, every obliquity": "proved [ideal, C05_ecl_rotation + C05_ecl_inverse; exact poles excluded]; binary64 1e-9 deg incl. poles searched",
-    "equatorial<->horizontal mutually inverse, every observer latitude": "proved [ideal, C05_hor_rotation + C05_hor_inverse; exact poles excluded]; binary64 searched",
-    "equatorial<->galactic mutually inverse": "proved [ideal, C05_gal_rotation + C05_gal_inverse; exact poles excluded]; binary64 searched",
-    "each conversion is the documented rotation of the direction (every formula/constant/sign pinned)": "proved [ideal, C05_closed_forms, C05_*_rotation]",
-    "longitudes in their documented range ([0,360); azimuth / hour angle (-180,180]), latitudes in [-90,90]": "proved [ideal, C05_*_rotation]; binary64 searched",
-    "the angle between any two directions is unchanged": "proved exactly [ideal, C05_dot_preserved]; binary64 1e-9 deg searched",
-    "angular separation = dot-product value (cos theta = sin d1 sin d2 + cos d1 cos d2 cos da), 0..180, symmetric": "proved [ideal, C05_separation]; binary64 1e-9 deg for 1e-7..179.999 deg searched",
-    "relative position angle = cross/dot-product value; antisymmetric": "proved [ideal, C05_position_angle: closed form (wrapped delta-alpha, two cancellation-free forms of x, both = u1.north2), equals Meeus' quotient form for cos d1 > 0, negates with delta-alpha]; binary64 1e-9 deg searched against a 60-digit reference (known finding position-angle-value-near-pole: both bodies within a millidegree of a pole)",
+    "equatorial<->ecliptical mutually inverse, every obliquity, including the poles":
+        "proved [ideal, C05_ecl_rotation + C05_ecl_inverse (angles, start longitude in [0,360)) + C05_inverse_directions (directions, any longitude)] for -90 < input latitude < 90 and intermediate latitude not a pole: an INPUT exactly at a pole is excluded (tan), an OUTPUT at a pole is covered; exact poles as inputs (+-90, +-(90-1e-9)) and the 1e-9 deg binary64 accuracy: unproved (searched)",
+    "equatorial<->horizontal mutually inverse, every observer latitude, including the poles":
+        "proved [ideal, C05_hor_rotation + C05_hor_inverse (hour angle / azimuth in (-180,180]) + C05_inverse_directions] with the same exclusion of exact input poles of the direction (observer latitude unrestricted); poles and binary64 accuracy: unproved (searched)",
+    "equatorial<->galactic mutually inverse, including the poles":
+        "proved [ideal, C05_gal_rotation + C05_gal_inverse + C05_inverse_directions] with the same exclusion of exact input poles; poles and binary64 accuracy: unproved (searched)",
+    "each conversion is the documented rotation of the direction (every formula/constant/sign pinned)":
+        "proved [ideal, C05_closed_forms (all reals; meaningless where cos(input latitude) = 0 because the ideal tan is junk there), C05_*_rotation (-90 < input latitude < 90)]",
+    "longitudes in their documented range ([0,360); azimuth / hour angle (-180,180]), latitudes in [-90,90]": "proved [ideal, C05_*_rotation, same domain]; binary64 searched everywhere",
+    "the angle between any two directions is unchanged": "proved exactly [ideal, C05_dot_preserved, both inputs off the exact poles]; binary64 1e-9 deg searched incl. poles",
+    "angular separation = dot-product value (cos theta = sin d1 sin d2 + cos d1 cos d2 cos da), 0..180, symmetric":
+        "proved [ideal, C05_separation: exact expression of the code, hc = 1 - h for exactly that expression, cosine rule, range, symmetry; all angles in (-360,360)]; binary64 1e-9 deg for 1e-7..179.999 deg: unproved (searched against a 60-digit reference)",
+    "relative position angle = cross/dot-product value; antisymmetric":
+        "proved [ideal, C05_position_angle: exact expression of the code; delta-alpha in [-180,180] with zero rounding term for right ascensions in [0,360) and congruent to a1-a2 mod 360 always; both x forms = u1.north2; equals Meeus' quotient form for cos d1 > 0; negates when the two RIGHT ASCENSIONS are exchanged (declinations kept, cos d1 sin da <> 0) - the exchange of the two bodies is not a negation on the sphere and is not claimed]; binary64 1e-9 deg: unproved (searched against a 60-digit reference; known finding position-angle-value-near-pole: both |delta| > 89.999 deg and deviation <= 1e-6 deg)",
     "circle_diameter between the largest separation a and 2a/sqrt(3)": "proved [ideal, C05_circle_closed_form + C05_circle_bounds + C05_circle_geometry: for any three separations in 0..180 (abstracted; their values are C05_separation) the code selects the largest as a, applies a or 2abc/sqrt((a+b+c)(a+b-c)(b+c-a)(a+c-b)) according to a >= sqrt(b^2+c^2), and a <= result <= 2a/sqrt(3)]; binary64 searched",
     "straight_line (angle between the great circles / distance from the great circle)": "unproved (searched against a cross-product reference); correspondence bit-exact",
-    "binary64 rounding of all the above": "unproved (searched with the property's tolerances; correspondence is bit-exact with traced libm)",
+    "binary64 rounding of all the above": "unproved (searched with the property's tolerances; correspondence is bit-exact with traced libm); there is no binary64 theorem for this property",
 }
 
 
